@@ -61,4 +61,11 @@ PROPS = {
             "hook H1 (clock override) supplies the registration times"],
         "assumptions": ["registration times are strictly increasing (two registrations in the same nanosecond are the excluded point)"],
     },
+    "C18": {
+        "lean_modules": ["DocsModel.Props.C18"],
+        "trusted_base": COMMON_TRUST + [
+            "redb tables are modelled as sorted lists; deleting a table with plain redb is modelled as emptying it; migrations 002/003 (pre-0.1 namespace table) are not modelled",
+        ],
+        "assumptions": ["ties on the greatest timestamp: the rebuilt head names the key last in table order, the maintained head the key inserted last; both carry the same timestamp"],
+    },
 }
